@@ -25,7 +25,7 @@ pub fn generate_c04(opts: &Opts, sink: &mut CaseSink) {
     let watchdog = Duration::from_secs(90);
     for i in 0..n {
         // shapes that stress end-of-stream accounting and back-pressure
-        let size = match i % 4 { 0 => 0, 1 => rng.range(1, 3) as u64, _ => rng.range(400, 1500) as u64 };
+        let size = match i % 4 { 0 => 0, 1 => rng.range(1, 3) as u64, _ => rng.range(120, 400) as u64 };
         let src = Pipe::Src(i % 3 != 0, big_data(&mut rng, size));
         let p = match i % 6 {
             0 => Pipe::Split(Box::new(src), vec![Op1::Shuffle, Op1::MapAdd(1)], vec![Op1::GroupBySum], None),
@@ -43,7 +43,7 @@ pub fn generate_c04(opts: &Opts, sink: &mut CaseSink) {
         emit(sink, &p, &configs, watchdog);
     }
 }
-pub const RULE_C04: &str = "whole jobs on the real engine: empty and tiny inputs, inputs of 400..1500 elements with batch size 1/3 (more than the total channel capacity: real back-pressure), split diamonds closed by merge and by outer join, broadcast joins, merges with an empty side, replay loops with internal shuffles, plus random pipelines; local 1..8 and 2..3-host deployments; watchdog 90 s. A run counts as good only if every host returned, exactly one sink handle held a result and the result is complete. Non-trivial: >=2 input elements and >=2 runs; distinct = distinct case terms";
+pub const RULE_C04: &str = "whole jobs on the real engine: empty and tiny inputs, inputs of 120..400 elements with batch size 1/3 (more than the total channel capacity: real back-pressure), split diamonds closed by merge and by outer join, broadcast joins, merges with an empty side, replay loops with internal shuffles, plus random pipelines; local 1..8 and 2..3-host deployments; watchdog 90 s. A run counts as good only if every host returned, exactly one sink handle held a result and the result is complete. Non-trivial: >=2 input elements and >=2 runs; distinct = distinct case terms";
 
 // ---------------------------------------------------------------- C10
 pub fn generate_c10(opts: &Opts, sink: &mut CaseSink) {
